@@ -217,6 +217,75 @@ def rule_R4(ctx, f):
         ctx.floor(rid, "missing-name tests in " + m, n, 1)
 
 
+def _label_pairs_cardinality(ctx, rid, b):
+    # cardinality test
+    found = False
+    for bi in b.reachable_blocks():
+        be = b.bool_edges(bi)
+        if be and be[0][0] == "binop" and be[0][1] in ("Ne", "Eq"):
+            x, y = be[0][2], be[0][3]
+            if {strip_generics(t[1]).split("::")[-1] for t in (x, y) if t[0] == "call"} == {"len"}:
+                args = {peel(t[2][0]) for t in (x, y)}
+                if args == {("field", ("deref", P1), "variable_labels"), P2}:
+                    bad = be[1] if be[0][1] == "Ne" else be[2]
+                    found = found or rejecting(b, bad)      # (a later debug_assert_eq! of the same lengths is not the test)
+    ctx.ob(rid, "cardinality", found, "make_label_pairs must return Err when the number of values differs from the number of variable labels", site=b.raw["span"]["at"])
+
+
+_CHAIN_MEMO = {}
+
+
+def _label_pairs_chain_form(ctx, rid, f, b, record=True):
+    """`names.iter().zip(values).map(|(n, v)| pair(n, v)).chain(consts.iter().cloned()).collect::<Vec<_>>()` followed by one sort: the same sequence of pairs as the two
+    push loops.  Records the R5 obligations (once) and returns True when the body has this form."""
+    key = (id(ctx), id(b))
+    if key in _CHAIN_MEMO:
+        return _CHAIN_MEMO[key]
+    _CHAIN_MEMO[key] = False
+    from pvrules.rules import field_sets
+    P1_, P2_ = ("param", 1), ("param", 2)
+    for c in b.calls_to("Iterator::collect"):
+        src = peel(c.args[0], transparent=[])
+        if not is_call(src, "Iterator::chain") or len(src[2]) != 2:
+            continue
+        A, B = peel(src[2][0], transparent=[]), peel(src[2][1], transparent=["Iterator::cloned", "slice::iter", "Vec::iter", "IntoIterator::into_iter", "Deref::deref"])
+        if not is_call(A, "Iterator::map"):
+            continue
+        z = peel(A[2][0], transparent=[])
+        a_ = peel(A[2][1], transparent=[])
+        cl = f.closure(a_[2]) if (isinstance(a_, tuple) and a_ and a_[0] == "agg" and a_[1] == "closure") else None
+        if cl is None or not is_call(z, "Iterator::zip"):
+            continue
+        za = peel(z[2][0], transparent=["slice::iter", "Vec::iter", "IntoIterator::into_iter", "Deref::deref"])
+        zb = peel(z[2][1], transparent=["slice::iter", "Vec::iter", "IntoIterator::into_iter", "Deref::deref"])
+        names_ok = za == ("field", ("deref", P1_), "variable_labels") and zb == P2_
+        consts_ok = B == ("field", ("deref", P1_), "const_label_pairs")
+        sn = field_sets(cl, "LabelPair", "name", "LabelPair::set_name")
+        sv = field_sets(cl, "LabelPair", "value", "LabelPair::set_value")
+        T_ = ["AsRef::as_ref", "ToOwned::to_owned", "str::to_owned", "ToString::to_string", "String::from", "Into::into", "Clone::clone", "Deref::deref", "String::as_str"]
+        pair_ok = len(sn) == 1 and len(sv) == 1 and peel(sn[0].args[1], transparent=T_) == ("field", ("param", 2), "0") and peel(sv[0].args[1], transparent=T_) == ("field", ("param", 2), "1") \
+            and peel(sn[0].args[0]) == peel(sv[0].args[0]) and peel(cl.term_local(0)) == peel(sn[0].args[0]) \
+            and count_range(cl, [sn[0].bb]) == (1, 1) and count_range(cl, [sv[0].bb]) == (1, 1)
+        V = c.result_term()
+        so = [x for x in b.calls_to(["slice::sort", "slice::sort_unstable", "slice::sort_by", "slice::sort_by_key"]) if peel(x.args[0], transparent=["DerefMut::deref_mut"]) == V]
+        muts = [x for x in b.calls_to(["Vec::push", "Vec::extend", "Extend::extend", "Vec::extend_from_slice", "Vec::insert", "Vec::remove", "Vec::pop", "Vec::truncate", "Vec::clear",
+                                       "Vec::retain", "Vec::dedup", "Vec::swap_remove", "Vec::drain", "slice::reverse"]) if peel(x.args[0], transparent=["DerefMut::deref_mut"]) == V]
+        sorted_ok = len(so) == 1 and not muts and b.all_paths_pass(c.bb, [so[0].bb])
+        if not (names_ok or consts_ok or pair_ok):
+            continue
+        if record:
+            ctx.ob(rid, "shape", True, "make_label_pairs builds its vector as variable pairs chained with the constant pairs and sorts it once", site=c.span)
+            ctx.ob(rid, "name-from-declared", names_ok and pair_ok, "the pair's name must be the element of desc.variable_labels of this step (chain form)", site=c.span)
+            ctx.ob(rid, "value-same-index", names_ok and pair_ok, "the pair's value must be the label value at the same position as the name (zip of the two sequences)", site=c.span)
+            ctx.ob(rid, "same-pair", pair_ok, "name and value must be set on the pair that is yielded", site=c.span)
+            ctx.ob(rid, "every-variable-pair", names_ok and pair_ok, "a pair must be produced for every declared variable label (a map over the whole zip, nothing filtered)", site=c.span)
+            ctx.ob(rid, "const-pairs-appended", consts_ok, "every constant label pair must be appended (found %s)" % show(src[2][1])[:120], site=c.span)
+            ctx.ob(rid, "sorted", sorted_ok, "the filled vector must be sorted before it is returned", site=so[0].span if so else c.span)
+        _CHAIN_MEMO[key] = True
+        return True
+    return False
+
+
 def rule_R5(ctx, f):
     rid = "R5"
     ctx.rule(rid, "exposed labels: make_label_pairs rejects a cardinality mismatch, pairs variable_labels[i] with label_values[i] using one index, "
@@ -226,10 +295,15 @@ def rule_R5(ctx, f):
         return
     ctx.saw(b)
     from pvrules.rules import field_sets
-    if not field_sets(b, "LabelPair", "name", "LabelPair::set_name"):
+    if _label_pairs_chain_form(ctx, rid, f, b):
+        pass
+    elif not field_sets(b, "LabelPair", "name", "LabelPair::set_name"):
         # the variable pairs built by `iter.map(|..| pair)` and appended with collect / extend: look at the explicit push loop
         from pvrules import inline
         b = inline.desugar_map_collect(f, b) or b
+    if _label_pairs_chain_form(ctx, rid, f, b):
+        _label_pairs_cardinality(ctx, rid, b)
+        return
     # the pair gets its name and value through the setters, or is built with both in place (a constructor of the model expanded here)
     sn = field_sets(b, "LabelPair", "name", "LabelPair::set_name")
     sv = field_sets(b, "LabelPair", "value", "LabelPair::set_value")
@@ -287,18 +361,7 @@ def rule_R5(ctx, f):
     ctx.ob(rid, "sorted", peel(so[0].args[0]) == vec and all(b.all_paths_pass(p.bb, [so[0].bb]) for p in appenders)
            and not any(p.bb in after_sort for p in appenders),
            "the filled vector must be sorted before it is returned", site=so[0].span)
-    # cardinality test
-    found = False
-    for bi in b.reachable_blocks():
-        be = b.bool_edges(bi)
-        if be and be[0][0] == "binop" and be[0][1] in ("Ne", "Eq"):
-            x, y = be[0][2], be[0][3]
-            if {strip_generics(t[1]).split("::")[-1] for t in (x, y) if t[0] == "call"} == {"len"}:
-                args = {peel(t[2][0]) for t in (x, y)}
-                if args == {("field", ("deref", P1), "variable_labels"), P2}:
-                    bad = be[1] if be[0][1] == "Ne" else be[2]
-                    found = found or rejecting(b, bad)      # (a later debug_assert_eq! of the same lengths is not the test)
-    ctx.ob(rid, "cardinality", found, "make_label_pairs must return Err when the number of values differs from the number of variable labels", site=b.raw["span"]["at"])
+    _label_pairs_cardinality(ctx, rid, b)
 
 
 def rule_R6(ctx, f):
